@@ -15,8 +15,8 @@ void verif_random_reset(uint32_t);
 
 const char *verif_property = "C20";
 const char *verif_class_names[] = { "slot_reused", "stale_after_reuse", "destroy_with_refs", "bogus_handle", "iterate",
-	"over_put_free", "second_destroy", "stale_put", "many_slots", NULL };
-enum { K_REUSE, K_STALE_REUSE, K_DESTROY_REFS, K_BOGUS, K_ITER, K_OVERPUT, K_DESTROY2, K_STALEPUT, K_MANY };
+	"over_put_free", "second_destroy", "stale_put", "many_slots", "create_without_memory", NULL };
+enum { K_REUSE, K_STALE_REUSE, K_DESTROY_REFS, K_BOGUS, K_ITER, K_OVERPUT, K_DESTROY2, K_STALEPUT, K_MANY, K_NOMEM };
 const char *verif_rule =
 	"case = op list over 3 handle databases (declared with destructor / created without / created then given a destructor): "
 	"create, get, put, destroy, refcount_get, iterate, applied to live handles, dead handles, copies with a wrong check word, "
@@ -36,6 +36,8 @@ static void my_dtor(void *inst) { dtor_calls.push_back(inst); }
 
 struct hrec { int db; qb_handle_t h; bool ever_valid; uint32_t objid; };
 
+/* allocations beyond 256 MiB fail (allocator_may_return_null is set by the driver): a create of INT32_MAX bytes returns -ENOMEM at once */
+extern "C" const char *__asan_default_options(void) { return "max_allocation_size_mb=256:allocator_may_return_null=1"; }
 extern "C" void verif_init(void) {}
 
 extern "C" int verif_case(const uint8_t *data, size_t size, struct verif_report *r)
@@ -59,6 +61,15 @@ extern "C" int verif_case(const uint8_t *data, size_t size, struct verif_report 
 		int di = vr_u8(&v) % 3;
 		mdb &M = D[di];
 		dtor_calls.clear();
+		if (op == 3 && !pool.empty() && vr_u8(&v) % 4 == 0) {	/* ---- a create that cannot get its memory: must fail cleanly and change nothing */
+			qb_handle_t h = 0;
+			int rc = qb_hdb_handle_create(&M.db, INT32_MAX, &h);
+			vop(r, 9, di, 0);
+			VLOG(r, "db%d create size=INT32_MAX -> rc=%d\n", di, rc);
+			if (rc == 0) { VFAIL(r, "huge-create-succeeded", "qb_hdb_handle_create of a 2 GiB instance returned 0 although the allocator refuses such sizes here"); break; }
+			VCLASS(r, K_NOMEM);
+			continue;
+		}
 		if (op <= 3 || pool.empty()) {		/* ---- create */
 			int sz = 8 + vr_u8(&v) % 57;
 			qb_handle_t h = 0;
